@@ -19,13 +19,26 @@ class FakeResponse:
         return copy.deepcopy(self._payload)
 
 
-class FakeServer:
-    def __init__(self, pages, base="https://ev.caltech.edu/api/v1/", total=None):
+class _RequestsFacade:
+    """whatever else the client looks up on its `requests` name (exception classes, status codes, ...) is the real thing"""
+
+    def __getattr__(self, name):
+        if name.startswith("__"):
+            raise AttributeError(name)
+        import requests as _real
+
+        return getattr(_real, name)
+
+
+class FakeServer(_RequestsFacade):
+    def __init__(self, pages, base="https://ev.caltech.edu/api/v1/", total=None, fail_at=()):
         self.pages = pages
         self.base = base
         self.log = []  # (method, url, auth/headers)
         self.first_url = None
         self.total = total
+        self.fail_at = set(fail_at)  # request numbers (0-based) answered with a transport fault instead of a page
+        self.faults = 0
 
     def _payload(self, i):
         links = {"self": {"href": "self-%d" % i}}
@@ -35,6 +48,11 @@ class FakeServer:
 
     def get(self, url, auth=None, **kw):
         self.log.append(("GET", url, auth))
+        if (len(self.log) - 1) in self.fail_at:
+            import requests as _real
+
+            self.faults += 1
+            raise _real.exceptions.ConnectionError("connection dropped (injected)")
         if "cursor=" in url:
             i = int(url.split("cursor=")[1].split("&")[0])
             if not url.startswith(self.base):
@@ -73,7 +91,7 @@ class owned_requests:
         self._dc.requests = self._old
 
 
-class MultiServer:
+class MultiServer(_RequestsFacade):
     """several result sets (one per site), each with its own chain of next links; requests are routed by URL"""
 
     def __init__(self, sets, base="https://ev.caltech.edu/api/v1/"):
